@@ -1,7 +1,18 @@
 """Meeting point between the file-based addon that C07 writes to a scratch directory and the harness."""
-SINK = None
+SINK = None      # record(what, version, *a)
+PRED = None      # pred(version, message) -> bool: called from the relay's subscription predicate
+RELAY = None     # relay(version, session, message): the relay hands the taken copy over for re-sending
 
 
 def record(*a):
     if SINK is not None:
         SINK(*a)
+
+
+def pred(version, message):
+    return PRED(version, message) if PRED is not None else False
+
+
+def relay(version, session, message):
+    if RELAY is not None:
+        RELAY(version, session, message)
